@@ -538,6 +538,29 @@ def gen_C12(rng, tier):
     # "the contents" are what a full read returns: accessors and the full read side by side on files
     # with a section header near the end of a read buffer
     out += reader_buffer_end_battery(tier, acc + ["read_all s=U e=U"])
+    # the FIRST append of a series torn at every byte (inside its first line included: a stub shorter than a line),
+    # then reopened: the series is empty again, says so, and accepts appends
+    for p in [0, 1, 2, 4, 6, 100]:
+        h = Hist(p)
+        h.new()
+        h.push(1000, pl=bytes([5] * p))
+        H = header_len(p, 0)
+        h.op("close")
+        h.op("save 0")
+        keeps = sorted(set([1, 2, 3, p, p + 1, p + 2, p + 3, h.ms - 1, h.ms, h.ms + 1, h.ms + h.ls - 1]))
+        for keep in keeps:
+            if keep <= 0 or keep >= h.ms + h.ls:
+                continue
+            h.op("restore 0")
+            h.op(f"cut data {H + keep}")
+            h.op("open p=any hdr=any caches=- cb=none ext=0")
+            for a in acc:
+                h.op(a)
+            h.op(f"push ts=7 pl={hexs(bytes([6] * p))}")
+            h.op("len")
+            h.op("range")
+            h.op("close")
+        out.append((f"torn-first-append-p{p}", h.script()))
     # the smallest series: empty, one line, two lines, each seen again after a reopen
     for p in [0, 1, 2, 3, 4, 8, 40]:
         h = Hist(p)
@@ -1727,9 +1750,32 @@ def index_ahead_battery(ops_after):
     return out
 
 
+def leftover_index_battery():
+    """an index file left behind by an earlier series of the same name (its data file is gone): a create
+    must not take it over - the sidecar of a NEW series lists the new series' sections and nothing else.
+    The create is refused (the file exists); whatever happens, no index with foreign entries may serve a series"""
+    out = []
+    for p in (0, 4):
+        old = index_file_bytes([(10, 0), (200000, 300), (5000000, 900)])
+        for planted in (old, old[:4], old[:20]):
+            h = Hist(p)
+            h.op(f"put index {hexs(planted)}")
+            h.op("files")
+            h.op(f"new p={p} hdr=- caches=-")
+            h.op("files")
+            h.op("close")
+            h.op(f"open p=any hdr=any caches=- cb=none ext=0")
+            h.op("len")
+            h.op("range")
+            h.op("files")
+            out.append((f"leftover-index-{len(planted)}-p{p}", h.script()))
+    return out
+
+
 def gen_C06(rng, tier):
     out = marker_words_inside_battery(["files", "len", "read_all s=U e=U"])
     out += index_ahead_battery(["files", "len", "range", "read_all s=U e=U"])
+    out += leftover_index_battery()
     for p in ([0, 2, 4] if tier == "quick" else [0, 1, 2, 3, 4, 5, 8, 16]):
         h = big_sparse(p, lines_for_bytes(p, 3 * 16384 + 700, True), seed=p + 31)
         h.op("files")
@@ -1889,8 +1935,48 @@ def big_cache_battery(tier, with_damage):
     return out
 
 
+def gap_twin_battery():
+    """a cache level is identified by (max_gap, bucket_size), and max_gap only names the file: every level is
+    configured TWICE (harness option gaps=g: max_gap None and Some(g)); the twin must hold the same lines as the
+    None level the model and the specification describe - attached at creation, later over existing data, and
+    with a twin that existed before and has to be caught up"""
+    out = []
+    for p in (4, 0):
+        for caches in ("5", "2,6", "3,3"):
+            if caches == "3,3":
+                continue
+            h = Hist(p)
+            h.op(f"new p={p} hdr=- caches={caches} gaps=60")
+            h.op("pushrun ts0=1000 step=7 count=43 seed=3")
+            h.op("files")
+            h.op("close")
+            h.op(f"open p=any hdr=any caches={caches} cb=none ext=0 gaps=60")
+            h.op("pushrun ts0=100000 step=11 count=20 seed=4")
+            h.op("files")
+            h.op("read_n n=3 s=U e=U")
+            h.op("close")
+            out.append((f"gap-twins-created-{caches}-p{p}", h.script()))
+            h = Hist(p)
+            h.op(f"new p={p} hdr=- caches=-")
+            h.op("pushrun ts0=1000 step=7 count=42 seed=5")
+            h.op("close")
+            h.op(f"open p=any hdr=any caches={caches} cb=none ext=0 gaps=9")      # attached over existing data
+            h.op("files")
+            h.op("pushrun ts0=100000 step=11 count=61 seed=6")
+            h.op("files")
+            h.op("close")
+            h.op(f"open p=any hdr=any caches={caches} cb=none ext=0")             # the None levels alone
+            h.op("pushrun ts0=900000 step=1 count=13 seed=7")
+            h.op("close")
+            h.op(f"open p=any hdr=any caches={caches} cb=none ext=0 gaps=9")      # the twins have to catch up
+            h.op("files")
+            h.op("close")
+            out.append((f"gap-twins-attached-{caches}-p{p}", h.script()))
+    return out
+
+
 def gen_C08(rng, tier):
-    out = spread_battery(["files"]) + refusals_with_caches_battery(rng, tier, ["files"])
+    out = spread_battery(["files"]) + refusals_with_caches_battery(rng, tier, ["files"]) + gap_twin_battery()
     out += big_cache_battery(tier, False)
     nh = 12 if tier == "quick" else 100
     Bs = [1, 2, 3, 4, 7, 10, 64]
@@ -2541,6 +2627,44 @@ def text_header_battery(tier):
     return out
 
 
+def near_equal_header_battery():
+    """demanded headers that a 'tolerant' comparison would take for the stored one: line endings (CR before LF,
+    a trailing CR / LF), surrounding white space, letter case, tabs for spaces, a trailing NUL, NFC / NFD forms -
+    in both directions, for text and binary headers, payload size demanded and retrieved.  Every one is a
+    DIFFERENT header: the open must fail with the mismatch error; the stored header itself must still open"""
+    out = []
+    pairs = []
+    for base in (b"Config(\n  unit: \"C\",\n  room: 3,\n)", bytes([0, 255, 10, 200, 13, 7, 10, 10]), b"sensor: kitchen"):
+        v = set()
+        v.add(base.replace(b"\n", b"\r\n"))
+        v.add(base + b"\r"); v.add(base + b"\n"); v.add(base + b"\r\n"); v.add(base + b" "); v.add(b" " + base)
+        v.add(base + b"\x00"); v.add(base.upper()); v.add(base.lower()); v.add(base.replace(b" ", b"\t"))
+        v.add(base.replace(b"  ", b" ")); v.add(base.strip())
+        v.add(base.replace(b"\r", b""))
+        pairs += [(base, x) for x in v if x != base]
+    pairs.append(("caf\u00e9".encode(), "cafe\u0301".encode()))
+    pairs.append(("cafe\u0301".encode(), "caf\u00e9".encode()))
+    for k, (a, b) in enumerate(pairs):
+        for stored, demanded in ((a, b), (b, a)):
+            for p in (0, 4):
+                h = Hist(p, hdr=stored)
+                h.new()
+                h.push(5, pl=bytes(p))
+                h.op("close")
+                h.open(hdr=demanded, p=p)
+                h.op("close")
+                h.open(hdr=demanded)              # payload size retrieved
+                h.op("close")
+                h.open(hdr=stored, p=p)
+                h.op("len")
+                h.op("close")
+                h.open()
+                h.op("len")
+                h.op("close")
+                out.append((f"near-equal-header-{k}-{'ab' if stored is a else 'ba'}-p{p}", h.script()))
+    return out
+
+
 def builder_chain_battery():
     """the header option is given by a CHAIN of builder calls; the last call decides: with_any_header()
     followed by with_header(h) demands h, the reverse order accepts anything, a second with_header
@@ -2587,7 +2711,7 @@ def builder_chain_battery():
 
 
 def gen_C17(rng, tier):
-    out = builder_chain_battery()
+    out = builder_chain_battery() + near_equal_header_battery()
     directed = [(p, d) for p in (8, 0, 12345) for d in (-1, 0, 1, 2)]
     for i in range(len(directed) + (6 if tier == "quick" else 60)):
         if i < len(directed):
@@ -2720,9 +2844,22 @@ def gen_C18(rng, tier):
             H = header_len(p, 0)
             h.op("close")
             h.op("save 0")
-            for where in ("marker2", "delta", "marker2-noindex", "last-marker2"):
+            for where in ("marker2", "delta", "marker2-noindex", "last-marker2", "delta-mid"):
                 for cb in ["T", "F", "none"]:
                     h.op("restore 0")
+                    if where == "delta-mid":
+                        # the delta of the THIRD data line of section B (b0+255) becomes FF FF; reads whose range
+                        # SPANS it - bounded ends inside the same section included - must meet the damage
+                        h.op(f"damage data {H + h.sections[1][1] + h.ms + 2 * h.ls} ffff")
+                        h.open(cb=cb)
+                        h.op(f"read_all s=I:{b0} e=I:{b0 + 256}")
+                        h.op(f"read_all s=I:{b0 + 100} e=E:{b0 + 257}")
+                        h.op(f"read_all s=U e=I:{b0 + 256}")
+                        h.op(f"read_all s=I:1001 e=I:{c0 + 1}")
+                        h.op("read_all s=U e=U")
+                        h.op(f"read_all s=I:{b0 + 256} e=U")        # starts behind the damage: nothing to meet
+                        h.op("close")
+                        continue
                     if where == "marker2":
                         h.op(f"damage data {H + h.sections[1][1] + h.ls} 0000")
                     elif where == "marker2-noindex":
@@ -2775,6 +2912,30 @@ def gen_C19(rng, tier):
     out += stale_bucket_battery(tier)
     out += emptied_cache_battery(tier)
     out += reader_buffer_end_battery(tier, ["read_all s=U e=U", "read_first_n n=100000 s=E:1050 e=U"])
+    # INVERTED ranges (start after end) on a series whose CACHE has several sections: every pair of bound kinds, both
+    # bounds on / between / beyond cache lines and section starts, for every kind of read - an error or nothing, never a panic
+    for p in (4, 0):
+        h = Hist(p, caches=[2])
+        h.new()
+        for t in (10, 11, 12, 13, 200000, 200001, 200002, 200003, 400000, 400001, 400002, 400003):
+            h.push(t, pl=bytes([3] * p))
+        pts = [9, 10, 11, 12, 13, 14, 100000, 199999, 200000, 200001, 200002, 200003, 300000, 400000, 400001, 400003, 400004]
+        for reopen in (False, True):
+            if reopen:
+                h.reopen()
+            for a in pts:
+                for b in pts:
+                    if a <= b:
+                        continue
+                    for ks, ke in (("I", "I"), ("E", "E"), ("I", "E"), ("E", "I")):
+                        if reopen and (ks, ke) != ("I", "I"):
+                            continue
+                        h.op(f"read_n n=3 s={ks}:{a} e={ke}:{b}")
+                        if not reopen:
+                            h.op(f"read_all s={ks}:{a} e={ke}:{b}")
+                            h.op(f"read_first_n n=2 s={ks}:{a} e={ke}:{b}")
+                            h.op(f"n_lines s={ks}:{a} e={ke}:{b}")
+        out.append((f"inverted-ranges-cached-p{p}", h.script()))
     # both bounds of a resampling read inside one time gap of a CACHE (whose lines are bucket means)
     for p in (4, 0):
         for tss, (a, b) in [([0, 60000, 120000, 180000], (100000, 130000)), ([0, 1, 100000, 100001], (70000, 80000)),
